@@ -155,6 +155,7 @@ struct PlanView {
   std::string mode;              // c02 | c03 | c16prog | c16free
   uint64_t maxSteps = 2000;
   std::string image, input;
+  unsigned tailCut = 0;          // the file ends this many bytes (0-3) before the end of the last image word
   uint64_t poweron = 0; bool hasPoweron = false;
   unsigned resetLen = 1;
   std::vector<Teleport> teleports;
@@ -174,6 +175,7 @@ PlanView view(const Json &plan) {
     if (k == "image") {
       if (op.has("hex")) v.image = sim::fromHex(op.getStr("hex"));
       else if (auto *c = corpusByName(op.getStr("corpus"))) v.image = c->image;
+      v.tailCut = (unsigned)(op.getU64("tail_cut") % 4);
     } else if (k == "input") v.input = sim::fromHex(op.getStr("hex"));
     else if (k == "poweron") { v.hasPoweron = true; v.poweron = op.getU64("seed"); }
     else if (k == "reset") v.resetLen = 1 + (unsigned)(op.getU64("len") % 4);
@@ -202,6 +204,9 @@ PlanView view(const Json &plan) {
   // so teleports in those modes stay inside it.  C02 ("from any architectural state") does not mask.
   if (v.mode != "c02") for (auto &t : v.teleports) t.o &= ~15u;
   while (v.image.size() % 4) v.image.push_back('\0');
+  // A file may stop inside its last word (the X-hosted compiler writes such images): the loader
+  // leaves the missing bytes zero.  In the model those bytes of the image are simply zero.
+  if (v.tailCut && v.image.size() >= 8) for (unsigned k = 0; k < v.tailCut; k++) v.image[v.image.size() - 1 - k] = '\0'; else v.tailCut = 0;
   std::sort(v.teleports.begin(), v.teleports.end(), [](const Teleport &x, const Teleport &y) { return x.at < y.at; });
   std::sort(v.pulses.begin(), v.pulses.end(), [](const Pulse &x, const Pulse &y) { return x.at < y.at; });
   return v;
@@ -326,6 +331,7 @@ public:
         std::string img = gen::makeImage(ir, ic);
         imgWords = (uint32_t)(img.size() / 4);
         op["hex"] = sim::toHex(img);
+        if (mode == "c02" && r.chance(1, 4)) op["tail_cut"] = (unsigned long long)(1 + r.below(3));
       }
       ops.push(op);
     }
@@ -489,7 +495,8 @@ public:
       std::string file;
       uint32_t words = (uint32_t)(v.image.size() / 4);
       for (int k = 0; k < 4; k++) file.push_back((char)(words >> (8 * k)));
-      file += v.image;
+      file += v.image.substr(0, v.image.size() - v.tailCut);
+      if (v.tailCut) o.count("fault.file_ends_inside_last_word");
       sim::fs::put("img.bin", file);
     }
     sim::SimInBuf inb(0);
